@@ -7,6 +7,7 @@ from petl.util.materialise import cache as petl_cache
 from hypothesis import strategies as st
 
 from pv import catalog, catgen, codec, gen, names
+from pv import scale
 from pv.core import Sub, Fail, exc_fail
 
 ID = "C01"
@@ -122,6 +123,20 @@ case.sharded = True
 
 def run_schedule(case, ctx):
     e = catalog.get(case["entry"])
+    # (single-input entries in their default variant only: a cross join or a two-row chunk size at this size is minutes)
+    # (the entries that keep a buffer, a spill file or a file position - extractors, fromdicts over a generator, cache - far
+    #  more often than the rest)
+    stateful = e.has("file") or e.name.startswith(("fromdicts", "cache", "fromcolumns"))
+    b = scale.derive(case, odds=8 if stateful else 120, sizes=[1500, 2600], wide=False) if (not e.cells and e.n == 1 and case["variant"] == "default") else None
+    if b and all(len(t) > 1 for t in case["sources"]):
+        # at scale: every source blown up past 1000 rows / an 8 KiB read buffer; each "adv" of the schedule now advances a
+        # block of rows, so that live iterators are hundreds of rows apart
+        # ... and the schedule opens with a leader well past row 1000 and a second iterator started late that follows it
+        # past row 1000 as well, before the two alternate
+        opening = [["new", 0]] + [["adv", 0]] * 8 + [["new", 1]] + [["adv", 1]] * 7 + [["adv", 0], ["adv", 1], ["adv", 0]]
+        case = dict(case, sources=[scale.apply(t, b) for t in case["sources"]], _stride=max(1, b["rows"] // 10), diamond=False,
+                    schedule=opening + [list(a) for a in case["schedule"]])
+        scale.label(ctx, b)
     variant = case["variant"]
     norm = _norm(e)
     up = case.get("upstream", "none")
@@ -193,7 +208,9 @@ def _run(case, ctx, e, variant, norm, solo, view):
         elif kind == "drop":
             its.pop(s, None)
         else:
-            # "adv": one next(); "drain": next() until the iterator is exhausted (a completed pass while others are live)
+            # "adv": one next() (a block of them at scale); "drain": next() until the iterator is exhausted (a completed pass
+            # while others are live)
+            stride_left = case.get("_stride", 1)
             while True:
                 it, pos = its[s]
                 try:
@@ -217,7 +234,9 @@ def _run(case, ctx, e, variant, norm, solo, view):
                         switched_after_data = True
                     last = s
                 if kind == "adv":
-                    break
+                    stride_left -= 1
+                    if stride_left <= 0:
+                        break
         live_max = max(live_max, len(its))
     for p in range(case["fresh"]):
         try:
